@@ -37,7 +37,7 @@ const smtPrelude = `; govc prelude
 (define-fun wrapu ((x Int) (m Int)) Int (ite (and (<= 0 x) (< x m)) x (mod x m)))
 (define-fun wraps ((x Int) (m Int)) Int (let ((h (div m 2))) (ite (and (<= (- h) x) (< x h)) x (- (mod (+ x h) m) h))))
 (define-fun tdiv ((a Int) (b Int)) Int (ite (>= a 0) (ite (> b 0) (div a b) (- (div a (- b)))) (ite (> b 0) (- (div (- a) b)) (div (- a) (- b)))))
-(define-fun tmod ((a Int) (b Int)) Int (- a (* b (tdiv a b))))
+(define-fun tmod ((a Int) (b Int)) Int (ite (and (>= a 0) (> b 0)) (mod a b) (- a (* b (tdiv a b)))))
 (define-fun imin ((a Int) (b Int)) Int (ite (<= a b) a b))
 (define-fun imax ((a Int) (b Int)) Int (ite (>= a b) a b))
 (declare-fun bor (Int Int) Int)
